@@ -43,6 +43,8 @@ pub struct StaticCase {
     /// entry points of the nested emissions of shape 4: [the filter leaf that logs its decision, the tee]
     #[serde(default = "default_vias")]
     pub vias: [Via; 2],
+    #[serde(default)]
+    pub state: ThreadState,
 }
 
 fn default_vias() -> [Via; 2] {
@@ -223,6 +225,7 @@ pub fn check_static(sc: &StaticCase, cx: &mut Cx) -> Res {
         macro_a: sc.macro_a,
         macro_b: sc.macro_b,
         by_value: sc.by_value,
+        state: sc.state,
     };
     let m = Model::new(&c);
     classify(&c, &m, cx);
